@@ -90,6 +90,27 @@ def _c07_falsy(plan, violation, entry):
     return False
 
 
+@trigger("c06_shared_conditions_warm")
+def _c06_shared_warm(plan, violation, entry):
+    """The `the` query is built from the SAME condition objects as the `an` query, an `an` iterator is left
+    suspended, and either an evaluation had already run before that iterator was created (warm operator caches) or
+    the shared condition is not one flat disjunction of atoms (its de-duplicating nodes then have the same parent
+    node in both queries)."""
+    if violation.get("oracle") not in entry.get("oracles", []):
+        return False
+    if not any(q.get("conds_from") for q in plan["pool"]["queries"]):
+        return False
+    ops = plan["ops"]
+    q0 = [q for q in plan["pool"]["queries"] if q["id"] == "q0"][0]
+    conds = q0.get("conds", [])
+    flat = len(conds) == 1 and conds[0][0] == "or" and all(c[0] in ("cmp", "in", "fp", "cp", "ht") for c in conds[0][1:])
+    for i, op in enumerate(ops):
+        if op[0] == "an_keep":
+            if not flat or any(o[0] in ("the", "an_full", "an_take", "an_keep") for o in ops[:i]):
+                return True
+    return False
+
+
 def classify(prop_id: str, plan: dict, violation: dict) -> Optional[dict]:
     """Return the open finding whose trigger matches this minimised failing plan, if any."""
     for entry in load().get("open", []):
